@@ -11,6 +11,7 @@ import Rl.Drv.Editor
 import Rl.Drv.Ed
 import Rl.Drv.Direct
 import Rl.Drv.Completion
+import Rl.Drv.HistFile
 open Rl Rl.Wire
 
 def dispatch (tbl : CharTable) (target : String) (f : List String) (impl : String) : String × String :=
@@ -20,6 +21,7 @@ def dispatch (tbl : CharTable) (target : String) (f : List String) (impl : Strin
     | "keys" => Rl.Drv.Keys.handle tbl f impl
     | "direct" => Rl.Drv.Direct.handle tbl f impl
     | "seg" => Rl.Drv.Direct.handleSeg tbl f impl
+    | "hf" => Rl.Drv.HistFile.handle tbl f impl
     | "comp" | "clcp" | "cfs" => Rl.Drv.Completion.handle target tbl f impl
     | _ =>
       if target.startsWith "ed" then Rl.Drv.Ed.handle tbl target f impl
